@@ -1,191 +1,280 @@
-import FiberModel.C19.Props
+import FiberModel.C19.Shapes
 /-
-C19 — what a wildcard-subdomain configuration entry means, derived from the constructor model.
+C19 — what the written forms of an origin normalise to, and what a wildcard-subdomain entry means,
+derived from the constructor model over the `net/url` transcription.
 
-For an entry `S ++ "://*." ++ D` (scheme `S` without ':', no spaces, host part `D` free of the
-characters `normalizeOrigin` rejects) the constructor stores prefix `lower(S)://` and suffix
-`lower(.D)`; so an origin is accepted by that entry iff it is `lower(S)://` ++ anything ++ `.lower(D)`
-— scheme equality and a *dot-separated* host suffix, as the property demands.
+* `normalizeOrigin_serialized` / `normalizeOrigin_ipv6`: `scheme://[userinfo@]host[:port][/]`
+  gives `lower(scheme)://lower(host)[:port]` — upper case folded, userinfo and the root path
+  dropped, ports (default or not) and a trailing dot kept, punycode labels untouched.
+* `buildLoop_wildcard`: for an entry `S://*.D[:port][/]`, blanks around allowed, the constructor
+  stores exactly (`lower(S)://`, `.lower(D)[:port]`).
+* `wildcard_entry_meaning`, `wildcard_match_serialized`: that entry accepts `o` iff `o` is
+  `lower(S)://` ++ anything ++ `.lower(D)[:port]`; for a serialized origin `S'://HP'` that is:
+  the same scheme and `HP'` ends in `.lower(D)[:port]` — a DOT-separated host suffix.
 -/
 namespace C19
-open B
+open B Url
 
-theorem isPrefixOf_append_self (p s : Bytes) : p.isPrefixOf (p ++ s) = true := by
-  rw [List.isPrefixOf_iff_prefix]; exact List.prefix_append p s
+/-- a port as written: nothing, or `:` and digits -/
+def portShaped (P : Bytes) : Prop := P = [] ∨ ∃ ds, P = 58 :: ds ∧ ds.all isDigit = true
 
-/-- `indexOf` finds a pattern starting with `c` right after a `c`-free prefix. -/
-theorem indexOf_after_free (s pat rest : Bytes) (c : Nat) (p' : Bytes) (hp : pat = c :: p')
-    (hfree : ∀ x ∈ s, x ≠ c) : indexOf (s ++ pat ++ rest) pat = some s.length := by
-  induction s with
-  | nil =>
-    simp only [List.nil_append, List.length_nil]
-    cases h : pat ++ rest with
-    | nil => simp [hp] at h
-    | cons x xs =>
-      unfold indexOf
-      have : pat.isPrefixOf (x :: xs) = true := by rw [← h]; exact isPrefixOf_append_self pat rest
-      simp [this]
-  | cons a s ih =>
-    have ha : a ≠ c := hfree a (by simp)
-    have ih' := ih (fun x hx => hfree x (by simp [hx]))
-    simp only [List.cons_append, List.length_cons]
-    unfold indexOf
-    have hnp : pat.isPrefixOf (a :: (s ++ pat ++ rest)) = false := by
-      subst hp
-      simp [List.isPrefixOf]
-      intro h; exact absurd h.symm ha
-    simp only [List.append_assoc] at ih' ⊢
-    simp only [List.append_assoc] at hnp
-    simp [hnp, ih']
+/-- a userinfo prefix as written: nothing, or userinfo bytes (no `%`) and `@` -/
+def userShaped (U : Bytes) : Prop := U = [] ∨ ∃ I, U = I ++ [64] ∧ validUserinfo I = true ∧ 37 ∉ I
 
-end C19
-
-namespace C19
-open B
-
-/-- the characters the modelled `normalizeOrigin` refuses inside the host part -/
-def badHostChar (c : Nat) : Bool := c == 47 || c == 42 || c == 63 || c == 35 || c == 32
-
-theorem contains_false_of_forall {l : Bytes} {c : Nat} (h : ∀ x ∈ l, x ≠ c) : l.contains c = false := by
-  induction l with
-  | nil => rfl
-  | cons a l ih =>
-    have ha : a ≠ c := h a (by simp)
-    have := ih (fun x hx => h x (by simp [hx]))
-    simp only [List.contains_cons, this, Bool.or_false]
-    exact beq_false_of_ne (Ne.symm ha)
-
-theorem take_append_len (s t : Bytes) : (s ++ t).take s.length = s := by simp
-theorem drop_append_len (s t : Bytes) (n : Nat) : (s ++ t).drop (s.length + n) = t.drop n := by
-  rw [List.drop_append]; simp
-
-theorem getLast?_ne_of_forall {l : Bytes} {c : Nat} (h : ∀ x ∈ l, x ≠ c) : l.getLast? ≠ some c := by
-  intro hl
-  have := List.mem_of_getLast? hl
-  exact h c this rfl
-
-/-- `normalizeOrigin` on `scheme://host` with a colon-free scheme and a clean host. -/
-theorem normalizeOrigin_simple (S H : Bytes) (hS : S ≠ []) (hSc : ∀ x ∈ S, x ≠ 58) (hH : H ≠ [])
-    (hHc : ∀ x ∈ H, badHostChar x = false) :
-    normalizeOrigin (S ++ b "://" ++ H) = some (toLower (S ++ b "://" ++ H)) := by
-  have hidx : indexOf (S ++ b "://" ++ H) (b "://") = some S.length :=
-    indexOf_after_free S (b "://") H 58 [47, 47] (by decide) hSc
-  have hne : ∀ c, (c = 47 ∨ c = 42 ∨ c = 63 ∨ c = 35 ∨ c = 32) → ∀ x ∈ H, x ≠ c := by
-    intro c hc x hx hxc
-    have := hHc x hx
-    subst hxc
-    rcases hc with h | h | h | h | h <;> subst h <;> simp [badHostChar] at this
-  unfold normalizeOrigin
-  rw [hidx]
-  simp only
-  have htake : (S ++ b "://" ++ H).take S.length = S := by rw [List.append_assoc]; exact take_append_len _ _
-  have hdrop : (S ++ b "://" ++ H).drop (S.length + 3) = H := by
-    rw [List.append_assoc, drop_append_len]; rfl
-  rw [htake, hdrop]
-  have hlast : H.getLast? ≠ some 47 := getLast?_ne_of_forall (hne 47 (by simp))
-  simp only [hlast, ite_false]
-  have m : ∀ c, (c = 47 ∨ c = 42 ∨ c = 63 ∨ c = 35 ∨ c = 32) → ¬ c ∈ H := fun c hc hm => hne c hc c hm rfl
-  have e1 : S.isEmpty = false := by cases S <;> simp_all
-  have e2 : H.isEmpty = false := by cases H <;> simp_all
-  simp [e1, e2, m 47 (by simp), m 42 (by simp), m 63 (by simp), m 35 (by simp), m 32 (by simp)]
-
-end C19
-
-namespace C19
-open B
-
-theorem trimLeft_id (s : Bytes) (c : Nat) (h : s.head? ≠ some c) : trimLeft s c = s := by
-  unfold trimLeft
-  cases s with
-  | nil => rfl
+theorem schemeShaped_bytes {S : Bytes} (h : schemeShaped S = true) : ∀ x ∈ S, isSchemeByte x = true := by
+  cases S with
+  | nil => simp [schemeShaped] at h
   | cons a t =>
-    have : (a == c) = false := by
-      apply beq_false_of_ne; intro e; subst e; simp at h
-    simp [List.dropWhile, this]
+    simp only [schemeShaped, Bool.and_eq_true, List.all_eq_true] at h
+    intro x hx
+    rcases List.mem_cons.mp hx with e | e
+    · subst e; simp [isSchemeByte, h.1]
+    · exact h.2 x e
 
-theorem trimRight_id (s : Bytes) (c : Nat) (h : s.getLast? ≠ some c) : trimRight s c = s := by
-  unfold trimRight
-  have : s.reverse.head? ≠ some c := by simpa [List.head?_reverse] using h
-  have := trimLeft_id s.reverse c this
-  unfold trimLeft at this
-  rw [this, List.reverse_reverse]
+theorem regByte_props {c : Nat} (h : regByte c = true) :
+    hostByte c = true ∧ c ≠ 58 ∧ c ≠ 42 ∧ c ≠ 91 := by
+  simp only [regByte, Bool.and_eq_true, bne_iff_ne, ne_eq] at h
+  exact ⟨h.1.1.1, h.1.1.2, h.1.2, h.2⟩
 
-theorem trim_id (s : Bytes) (c : Nat) (h1 : s.head? ≠ some c) (h2 : s.getLast? ≠ some c) :
-    trim s c = s := by
-  unfold trim; rw [trimLeft_id s c h1, trimRight_id s c h2]
+theorem port_props {P : Bytes} (hP : portShaped P) :
+    clean P ∧ 64 ∉ P ∧ 42 ∉ P ∧ 32 ∉ P ∧ toLower P = P := by
+  rcases hP with e | ⟨ds, e, hd⟩
+  · subst e; exact ⟨fun x hx => by simp at hx, by simp, by simp, by simp, rfl⟩
+  · subst e
+    have hdig : ∀ x ∈ ds, 48 ≤ x ∧ x ≤ 57 := by
+      intro x hx
+      have := List.all_eq_true.mp hd x hx
+      simpa [isDigit] using this
+    refine ⟨?_, ?_, ?_, ?_, ?_⟩
+    · apply clean_cons (by decide)
+      intro x hx
+      have := hdig x hx
+      simp only [isCTL, Bool.or_eq_false_iff, decide_eq_false_iff_not, beq_eq_false_iff_ne]
+      omega
+    · simp only [List.mem_cons, not_or]; exact ⟨by decide, fun m => by have := hdig 64 m; omega⟩
+    · simp only [List.mem_cons, not_or]; exact ⟨by decide, fun m => by have := hdig 42 m; omega⟩
+    · simp only [List.mem_cons, not_or]; exact ⟨by decide, fun m => by have := hdig 32 m; omega⟩
+    · simp only [toLower, List.map_cons]
+      congr 1
+      conv => rhs; rw [← List.map_id ds]
+      apply List.map_congr_left
+      intro x hx
+      have := hdig x hx
+      have hu : isUpper x = false := by
+        simp only [isUpper, Bool.and_eq_false_iff, decide_eq_false_iff_not]; omega
+      simp [lowerByte, hu]
 
-/-- **What the constructor stores for a wildcard entry.** For `S ++ "://*." ++ D` with a non-empty,
-    colon- and space-free scheme `S` and a non-empty host part `D` free of `/ * ? #` and spaces, the
-    loop of `New` appends exactly the subdomain entry (`lower(S)://`, `lower(.D)`). -/
-theorem buildLoop_wildcard (S D : Bytes) (rest : List Bytes) (os : List Bytes) (ss : List Subdomain)
-    (hS : S ≠ []) (hSc : ∀ x ∈ S, x ≠ 58) (hSs : ∀ x ∈ S, x ≠ 32)
-    (hD : D ≠ []) (hDc : ∀ x ∈ D, badHostChar x = false) :
-    buildLoop ((S ++ b "://*." ++ D) :: rest) os ss =
-      buildLoop rest os (ss ++ [{ pre := toLower (S ++ b "://"), suf := toLower (46 :: D) }]) := by
-  have hstar : (S ++ b "://*." ++ D) ≠ b "*" := by
+theorem reg_props {H : Bytes} (hH : H.all regByte = true) :
+    clean H ∧ 64 ∉ H ∧ 42 ∉ H ∧ 32 ∉ H := by
+  have hb : ∀ x ∈ H, regByte x = true := fun x hx => List.all_eq_true.mp hH x hx
+  refine ⟨?_, ?_, ?_, ?_⟩
+  · intro x hx
+    have := hostByte_clean (regByte_props (hb x hx)).1
+    exact ⟨this.1, this.2.1, this.2.2.1, this.2.2.2.1⟩
+  · intro m; exact (hostByte_clean (regByte_props (hb 64 m)).1).2.2.2.2 rfl
+  · intro m; exact (regByte_props (hb 42 m)).2.2.1 rfl
+  · intro m
+    have := (regByte_props (hb 32 m)).1
+    revert this; decide
+
+/-- the authority `[userinfo@]hostport` reads as `hostport` -/
+theorem parseAuthority_userShaped (U HP host : Bytes) (hU : userShaped U) (h64 : 64 ∉ HP)
+    (hh : parseHost HP = some host) : parseAuthority (U ++ HP) = some host := by
+  rcases hU with e | ⟨I, e, hI, hp⟩
+  · subst e; simp only [List.nil_append]; rw [parseAuthority_nouser HP h64]; exact hh
+  · subst e
+    rw [show I ++ [64] ++ HP = I ++ 64 :: HP by simp]
+    exact parseAuthority_user I HP host hI hp h64 hh
+
+theorem userShaped_clean {U : Bytes} (hU : userShaped U) : clean U := by
+  rcases hU with e | ⟨I, e, hI, _⟩
+  · subst e; intro x hx; simp at hx
+  · subst e
+    exact clean_append (validUserinfo_clean hI) (clean_cons (by decide) (fun x hx => by simp at hx))
+
+/-- **A registered-name / IPv4 origin as written.** `scheme://[userinfo@]host[:port][/]` with a
+    scheme `[a-zA-Z][a-zA-Z0-9+.-]*`, a non-empty host of bytes `url.Parse` passes (letters of
+    either case, digits, `-._~` and the sub-delims; no `%`, `:`, `*`, `[`), digits as port:
+    `normalizeOrigin` answers `lower(scheme)://lower(host)[:port]`. The userinfo and the root path
+    are dropped; the port stays whether default or not; a trailing dot stays. -/
+theorem normalizeOrigin_serialized (S U H P T : Bytes) (hS : schemeShaped S = true) (hU : userShaped U)
+    (hH : H.all regByte = true) (hHne : H ≠ []) (hP : portShaped P) (hT : T = [] ∨ T = [47]) :
+    normalizeOrigin (S ++ b "://" ++ U ++ H ++ P ++ T) = some (toLower S ++ b "://" ++ toLower H ++ P) := by
+  obtain ⟨hHc, hH64, hH42, _⟩ := reg_props hH
+  obtain ⟨hPc, hP64, hP42, _, hPl⟩ := port_props hP
+  have h64 : 64 ∉ H ++ P := by simp [hH64, hP64]
+  have hpa : parseAuthority (U ++ (H ++ P)) = some (H ++ P) :=
+    parseAuthority_userShaped U (H ++ P) (H ++ P) hU h64 (parseHost_regname H P hH hP)
+  have := normalizeOrigin_authority_form S (U ++ (H ++ P)) T (H ++ P) hS
+    (clean_append (userShaped_clean hU) (clean_append hHc hPc)) hT hpa (by simp [hHne]) (by simp [hH42, hP42])
+  rw [show S ++ b "://" ++ U ++ H ++ P ++ T = S ++ 58 :: 47 :: 47 :: (U ++ (H ++ P) ++ T) by simp [b]]
+  rw [this, toLower_append, hPl]
+  simp
+
+/-- **An IPv6 origin as written.** `scheme://[userinfo@][v6][:port][/]` (hex digits, `:` and `.`
+    between the brackets) normalises to `lower(scheme)://[lower(v6)][:port]`. -/
+theorem normalizeOrigin_ipv6 (S U A P T : Bytes) (hS : schemeShaped S = true) (hU : userShaped U)
+    (hA : A.all v6Byte = true) (hP : portShaped P) (hT : T = [] ∨ T = [47]) :
+    normalizeOrigin (S ++ b "://" ++ U ++ 91 :: (A ++ 93 :: P) ++ T)
+      = some (toLower S ++ b "://" ++ 91 :: (toLower A ++ 93 :: P)) := by
+  obtain ⟨hPc, hP64, hP42, _, hPl⟩ := port_props hP
+  have hAb : ∀ x ∈ A, hostByte x = true ∧ x ≠ 42 := by
+    intro x hx
+    have h := List.all_eq_true.mp hA x hx
+    refine ⟨(v6Byte_hostByte h).1, ?_⟩
+    intro e; subst e; revert h; decide
+  have hAc : clean A := by
+    intro x hx
+    have := hostByte_clean (hAb x hx).1
+    exact ⟨this.1, this.2.1, this.2.2.1, this.2.2.2.1⟩
+  have hA64 : 64 ∉ A := fun m => (hostByte_clean (hAb 64 m).1).2.2.2.2 rfl
+  have hA42 : 42 ∉ A := fun m => (hAb 42 m).2 rfl
+  have hHPc : clean (91 :: (A ++ 93 :: P)) :=
+    clean_cons (by decide) (clean_append hAc (clean_cons (by decide) hPc))
+  have h64 : 64 ∉ 91 :: (A ++ 93 :: P) := by
+    simp only [List.mem_cons, List.mem_append, not_or]
+    exact ⟨by decide, hA64, by decide, hP64⟩
+  have h42 : 42 ∉ 91 :: (A ++ 93 :: P) := by
+    simp only [List.mem_cons, List.mem_append, not_or]
+    exact ⟨by decide, hA42, by decide, hP42⟩
+  have hpa : parseAuthority (U ++ 91 :: (A ++ 93 :: P)) = some (91 :: (A ++ 93 :: P)) :=
+    parseAuthority_userShaped U _ _ hU h64 (parseHost_v6 A P hA hP)
+  have := normalizeOrigin_authority_form S (U ++ 91 :: (A ++ 93 :: P)) T (91 :: (A ++ 93 :: P)) hS
+    (clean_append (userShaped_clean hU) hHPc) hT hpa (by simp) h42
+  rw [show S ++ b "://" ++ U ++ 91 :: (A ++ 93 :: P) ++ T
+        = S ++ 58 :: 47 :: 47 :: (U ++ 91 :: (A ++ 93 :: P) ++ T) by simp [b]]
+  rw [this]
+  have : toLower (91 :: (A ++ 93 :: P)) = 91 :: (toLower A ++ 93 :: P) := by
+    have h1 : toLower (91 :: (A ++ 93 :: P)) = 91 :: (toLower A ++ 93 :: toLower P) := by
+      simp [toLower, lowerByte, isUpper]
+    rw [h1, hPl]
+  rw [this]
+
+/-- `normalizeOrigin` on plain `scheme://host` (the shape the first version of this model covered). -/
+theorem normalizeOrigin_simple (S H : Bytes) (hS : schemeShaped S = true) (hH : H ≠ [])
+    (hHc : H.all regByte = true) :
+    normalizeOrigin (S ++ b "://" ++ H) = some (toLower (S ++ b "://" ++ H)) := by
+  have := normalizeOrigin_serialized S [] H [] [] hS (Or.inl rfl) hHc hH (Or.inl rfl) (Or.inl rfl)
+  simp only [List.append_nil] at this
+  rw [this, toLower_append, toLower_append]
+  rfl
+
+/-! ### blanks around an entry -/
+
+theorem dropWhile_spaces (n : Nat) (Y : Bytes) (h : Y.head? ≠ some 32) :
+    (List.replicate n 32 ++ Y).dropWhile (· == 32) = Y := by
+  induction n with
+  | zero =>
+    cases Y with
+    | nil => rfl
+    | cons a t => simp at h; simp [h]
+  | succ k ih => simp [List.replicate_succ, ih]
+
+/-- `utils.Trim(s, ' ')` takes exactly the blanks off -/
+theorem trim_spaces (n m : Nat) (X : Bytes) (h0 : X ≠ []) (h1 : X.head? ≠ some 32) (h2 : X.getLast? ≠ some 32) :
+    trim (List.replicate n 32 ++ X ++ List.replicate m 32) 32 = X := by
+  unfold trim trimLeft trimRight
+  rw [List.append_assoc, dropWhile_spaces n _ (by
+    cases X with
+    | nil => exact absurd rfl h0
+    | cons a t => simpa using h1)]
+  rw [List.reverse_append, List.reverse_replicate, dropWhile_spaces m _ (by
+    rw [List.head?_reverse]; exact h2)]
+  simp
+
+/-! ### a wildcard entry -/
+
+/-- **What the constructor stores for a wildcard entry.** For `S ++ "://*." ++ D ++ port ++ tail`
+    (scheme `S`, domain bytes `D` as in `normalizeOrigin_serialized`, optional port, optional `/`),
+    blanks in front and behind allowed, the loop of `New` appends exactly the subdomain entry
+    (`lower(S)://`, `.lower(D)[:port]`). -/
+theorem buildLoop_wildcard (n m : Nat) (S D P T : Bytes) (rest : List Bytes) (os : List Bytes) (ss : List Subdomain)
+    (hS : schemeShaped S = true) (hD : D.all regByte = true) (hP : portShaped P) (hT : T = [] ∨ T = [47]) :
+    buildLoop ((List.replicate n 32 ++ (S ++ b "://*." ++ D ++ P ++ T) ++ List.replicate m 32) :: rest) os ss =
+      buildLoop rest os (ss ++ [{ pre := toLower S ++ b "://", suf := 46 :: toLower D ++ P }]) := by
+  obtain ⟨hDc, hD64, hD42, hD32⟩ := reg_props hD
+  obtain ⟨hPc, hP64, hP42, hP32, hPl⟩ := port_props hP
+  have hSne : S ≠ [] := by intro e; rw [e] at hS; simp [schemeShaped] at hS
+  have hSnc := schemeShaped_no_colon hS
+  -- the entry as prefix ++ pattern ++ rest
+  let R := D ++ P ++ T ++ List.replicate m 32
+  have he : List.replicate n 32 ++ (S ++ b "://*." ++ D ++ P ++ T) ++ List.replicate m 32
+      = (List.replicate n 32 ++ S) ++ b "://*." ++ R := by simp [R]
+  have hstar : (List.replicate n 32 ++ S) ++ b "://*." ++ R ≠ b "*" := by
     intro h
     have := congrArg List.length h
     simp [b] at this
     omega
-  have hidx : indexOf (S ++ b "://*." ++ D) (b "://*.") = some S.length :=
-    indexOf_after_free S (b "://*.") D 58 [47, 47, 42, 46] (by decide) hSc
-  -- the entry with the `*` cut out
-  have hcut : (S ++ b "://*." ++ D).take (S.length + 3) ++ (S ++ b "://*." ++ D).drop (S.length + 4)
-      = S ++ b "://" ++ (46 :: D) := by
-    have h1 : (S ++ b "://*." ++ D).take (S.length + 3) = S ++ b "://" := by
-      have : S.length + 3 = (S ++ b "://").length := by simp [b]
-      rw [this, show S ++ b "://*." ++ D = (S ++ b "://") ++ ([42, 46] ++ D) by simp [b]]
-      exact take_append_len _ _
-    have h2 : (S ++ b "://*." ++ D).drop (S.length + 4) = 46 :: D := by
-      rw [List.append_assoc, drop_append_len]; rfl
-    rw [h1, h2]
-  have hH : ∀ x ∈ (46 :: D), badHostChar x = false := by
+  have hfree : ∀ x ∈ List.replicate n 32 ++ S, x ≠ 58 := by
     intro x hx
-    rcases List.mem_cons.mp hx with h | h
-    · subst h; decide
-    · exact hDc x h
-  have hhead : (S ++ b "://" ++ (46 :: D)).head? ≠ some 32 := by
+    rcases List.mem_append.mp hx with h | h
+    · rw [List.mem_replicate] at h; omega
+    · exact hSnc x h
+  have hidx : indexOf ((List.replicate n 32 ++ S) ++ b "://*." ++ R) (b "://*.") = some (List.replicate n 32 ++ S).length :=
+    indexOf_after_free _ (b "://*.") R 58 [47, 47, 42, 46] (by decide) hfree
+  have hcut : ((List.replicate n 32 ++ S) ++ b "://*." ++ R).take ((List.replicate n 32 ++ S).length + 3)
+        ++ ((List.replicate n 32 ++ S) ++ b "://*." ++ R).drop ((List.replicate n 32 ++ S).length + 4)
+      = List.replicate n 32 ++ (S ++ 58 :: 47 :: 47 :: ((46 :: D ++ P) ++ T)) ++ List.replicate m 32 := by
+    have h1 : ((List.replicate n 32 ++ S) ++ b "://*." ++ R).take ((List.replicate n 32 ++ S).length + 3)
+        = (List.replicate n 32 ++ S) ++ b "://" := by
+      have : (List.replicate n 32 ++ S).length + 3 = ((List.replicate n 32 ++ S) ++ b "://").length := by simp [b]; omega
+      rw [this, show (List.replicate n 32 ++ S) ++ b "://*." ++ R
+            = ((List.replicate n 32 ++ S) ++ b "://") ++ ([42, 46] ++ R) by simp [b]]
+      exact List.take_left' rfl
+    have h2 : ((List.replicate n 32 ++ S) ++ b "://*." ++ R).drop ((List.replicate n 32 ++ S).length + 4) = 46 :: R := by
+      have : (List.replicate n 32 ++ S).length + 4 = ((List.replicate n 32 ++ S) ++ b "://*").length := by simp [b]; omega
+      rw [this, show (List.replicate n 32 ++ S) ++ b "://*." ++ R
+            = ((List.replicate n 32 ++ S) ++ b "://*") ++ (46 :: R) by simp [b]]
+      exact List.drop_left' rfl
+    rw [h1, h2]; simp [R, b]
+  -- trimming the blanks
+  have hhead : (S ++ 58 :: 47 :: 47 :: ((46 :: D ++ P) ++ T)).head? ≠ some 32 := by
     cases S with
-    | nil => exact absurd rfl hS
+    | nil => exact absurd rfl hSne
     | cons a t =>
-      have : a ≠ 32 := hSs a (by simp)
+      have : a ≠ 32 := by
+        intro e; subst e; simp [schemeShaped, isAlpha, isUpper, isLower] at hS
       simpa using this
-  have hlast : (S ++ b "://" ++ (46 :: D)).getLast? ≠ some 32 := by
-    have hne : D ≠ [] := hD
-    obtain ⟨d, ds, rfl⟩ := List.exists_cons_of_ne_nil hne
-    have e : S ++ b "://" ++ 46 :: d :: ds = (S ++ b "://" ++ [46]) ++ (d :: ds) := by simp
-    rw [e, List.getLast?_append]
+  have hlast : (S ++ 58 :: 47 :: 47 :: ((46 :: D ++ P) ++ T)).getLast? ≠ some 32 := by
     intro h
-    have h' : (d :: ds).getLast? = some 32 := by
-      cases hh : (d :: ds).getLast? with
-      | none => simp at hh
-      | some v => rw [hh] at h; simpa using h
-    have hm := List.mem_of_getLast? h'
-    have := hDc 32 hm
-    simp [badHostChar] at this
-  have hnorm := normalizeOrigin_simple S (46 :: D) hS hSc (by simp) hH
-  have htk : (toLower (S ++ b "://" ++ (46 :: D))).take (S.length + 3) = toLower (S ++ b "://") := by
-    rw [toLower_append]
-    have : (toLower (S ++ b "://")).length = S.length + 3 := by simp [toLower_length, b]
-    rw [← this]; exact take_append_len _ _
-  have hdr : (toLower (S ++ b "://" ++ (46 :: D))).drop (S.length + 3) = toLower (46 :: D) := by
-    rw [toLower_append]
-    have : (toLower (S ++ b "://")).length = S.length + 3 := by simp [toLower_length, b]
-    rw [← this]; simp
-  rw [buildLoop]
+    have hm := List.mem_of_getLast? h
+    simp only [List.mem_append, List.mem_cons] at hm
+    rcases hm with h | h | h | h | ((h | h) | h) | h
+    · have := schemeShaped_bytes hS 32 h; revert this; decide
+    · omega
+    · omega
+    · omega
+    · omega
+    · exact hD32 h
+    · exact hP32 h
+    · rcases hT with e | e <;> simp [e] at h
+  -- what the text denotes
+  have h64 : 64 ∉ (46 :: D) ++ P := by simp [hD64, hP64]
+  have hDall : (46 :: D).all regByte = true := by
+    simp only [List.all_cons, hD, Bool.and_true]; decide
+  have hpa : parseAuthority ((46 :: D) ++ P) = some ((46 :: D) ++ P) := by
+    rw [parseAuthority_nouser _ h64]; exact parseHost_regname (46 :: D) P hDall hP
+  have hcl : clean ((46 :: D) ++ P) := clean_append (clean_cons (by decide) hDc) hPc
+  have hparse := parse_authority_form S ((46 :: D) ++ P) T ((46 :: D) ++ P) hS hcl hT hpa
+  have hwild : wildcardSplit (S ++ 58 :: 47 :: 47 :: ((46 :: D ++ P) ++ T))
+      = some (toLower S ++ b "://", 46 :: toLower D ++ P) := by
+    rw [wildcardSplit_eq_wildcardOfText]
+    unfold wildcardOfText
+    rw [show (46 :: D ++ P) = (46 :: D) ++ P by simp, hparse]
+    have h42 : ¬ ((46 :: D) ++ P).contains 42 = true := by simp [hD42, hP42]
+    have hp : T = [] ∨ T = b "/" := by rcases hT with e | e <;> simp [e, b]
+    simp only
+    rw [if_pos ⟨by simp, h42, hp, by simp, by simp⟩]
+    simp only [toLower_append, hPl, toLower_idem]
+    rfl
+  rw [he, buildLoop]
   simp only [hstar, ite_false, hidx]
-  rw [hcut, trim_id _ 32 hhead hlast, hnorm]
-  simp only [htk, hdr]
-
-end C19
-
-namespace C19
-open B
+  rw [hcut, trim_spaces n m _ (by simp) hhead hlast, hwild]
 
 /-- **Meaning of a wildcard entry.** The stored entry accepts an origin iff the origin is the
-    lower-cased scheme, `://`, any (possibly empty) label text, a DOT, and the lower-cased domain:
-    scheme equality and a dot-separated host suffix. A look-alike host that merely ends in the
-    domain's characters without the dot is not accepted. -/
+    lower-cased scheme, `://`, any (possibly empty) label text, a DOT, and the lower-cased domain
+    (with its port): scheme equality and a dot-separated host suffix. A look-alike host that merely
+    ends in the domain's characters without the dot is not accepted. -/
 theorem wildcard_entry_meaning (S D o : Bytes) :
     ({ pre := toLower (S ++ b "://"), suf := toLower (46 :: D) } : Subdomain).match o = true ↔
       ∃ mid, o = toLower S ++ b "://" ++ mid ++ (46 :: toLower D) := by
@@ -196,17 +285,59 @@ theorem wildcard_entry_meaning (S D o : Bytes) :
     obtain ⟨mid, hm⟩ := subdomain_match_sound _ o h
     exact ⟨mid, by rw [hm, hpre, hsuf]⟩
   · rintro ⟨mid, rfl⟩
-    unfold Subdomain.match hasPrefix hasSuffix
-    simp only [hpre, hsuf, Bool.and_eq_true, decide_eq_true_eq]
-    refine ⟨⟨by simp; omega, ?_⟩, ?_⟩
-    · rw [List.isPrefixOf_iff_prefix]; exact ⟨mid ++ (46 :: toLower D), by simp⟩
-    · rw [List.isSuffixOf_iff_suffix]; exact ⟨toLower S ++ b "://" ++ mid, by simp⟩
+    rw [← hpre, ← hsuf]
+    exact subdomain_match_complete { pre := toLower (S ++ b "://"), suf := toLower (46 :: D) } mid
+
+theorem append_colon_inj (a c x y : Bytes) (ha : 58 ∉ a) (hc : 58 ∉ c) (h : a ++ 58 :: x = c ++ 58 :: y) :
+    a = c ∧ x = y := by
+  induction a generalizing c with
+  | nil =>
+    cases c with
+    | nil => simpa using h
+    | cons d ds =>
+      simp only [List.nil_append, List.cons_append, List.cons.injEq] at h
+      exact absurd h.1.symm (fun e => hc (by simp [e]))
+  | cons p ps ih =>
+    cases c with
+    | nil =>
+      simp only [List.nil_append, List.cons_append, List.cons.injEq] at h
+      exact absurd h.1 (fun e => ha (by simp [e]))
+    | cons d ds =>
+      simp only [List.cons_append, List.cons.injEq] at h
+      obtain ⟨e1, e2⟩ := ih ds (fun m => ha (by simp [m])) (fun m => hc (by simp [m])) h.2
+      exact ⟨by rw [h.1, e1], e2⟩
+
+/-- **A wildcard entry against a serialized origin.** For an origin `S' ++ "://" ++ HP'` (no colon
+    in `S'`) the stored entry (`scheme://`, `suffix`) matches iff the schemes are equal and the
+    host-and-port ends in the suffix — which starts with the dot. -/
+theorem wildcard_match_serialized (sch suf S' HP' : Bytes) (h1 : 58 ∉ sch) (h2 : 58 ∉ S') :
+    ({ pre := sch ++ b "://", suf := suf } : Subdomain).match (S' ++ b "://" ++ HP') = true ↔
+      S' = sch ∧ ∃ mid, HP' = mid ++ suf := by
+  constructor
+  · intro h
+    obtain ⟨mid, hm⟩ := subdomain_match_sound _ _ h
+    simp only at hm
+    have e : S' ++ 58 :: (47 :: 47 :: HP') = sch ++ 58 :: (47 :: 47 :: (mid ++ suf)) := by
+      have := hm; simp only [b] at this; simpa using this
+    obtain ⟨e1, e2⟩ := append_colon_inj _ _ _ _ h2 h1 e
+    simp only [List.cons.injEq, true_and] at e2
+    exact ⟨e1, mid, e2⟩
+  · rintro ⟨rfl, mid, rfl⟩
+    have := subdomain_match_complete { pre := S' ++ b "://", suf := suf } mid
+    simpa using this
 
 /-- Non-vacuity / the look-alike case, concretely: `https://*.example.com` accepts
-    `https://a.example.com` and refuses `https://evilexample.com`. -/
+    `https://a.example.com` and refuses `https://evilexample.com`; written with blanks, upper case,
+    a port and a trailing slash it is the same entry with the port. -/
 example :
-    (buildLoop [b "https://*.example.com"] [] []).map (fun r => (r.2.1.map (·.match (b "https://a.example.com")),
-                                                                  r.2.1.map (·.match (b "https://evilexample.com"))))
-      = some ([true], [false]) := by decide
+    (buildLoop [b "https://*.example.com", b "  HTTPS://*.Example.COM:8443/ "] [] []).map
+      (fun r => (r.2.1, r.2.1.map (·.match (b "https://a.example.com")), r.2.1.map (·.match (b "https://evilexample.com"))))
+      = some ([{ pre := b "https://", suf := b ".example.com" }, { pre := b "https://", suf := b ".example.com:8443" }],
+              [true, false], [false, false]) := by decide +kernel
+
+/-- the hypotheses of `normalizeOrigin_serialized` are met by ordinary origins -/
+example : schemeShaped (b "HTTPS") = true ∧ (b "Example.COM.").all regByte = true ∧
+    (b "xn--bcher-kva.example").all regByte = true ∧ validUserinfo (b "user:pw") = true ∧
+    (b "::FFFF:1.2.3.4").all v6Byte = true := by decide +kernel
 
 end C19
